@@ -124,7 +124,7 @@ fn signature(op: &str) -> Option<&'static str> {
         "dec" => "tb",
         "lens" => "",
         "serde_enc" | "serde_dec" => "tfb",
-        "flow" | "flow_nofile" => "iFbbboook",
+        "flow" | "flow_nofile" | "flow_blobs" => "iFbbboook",
         "ext_setup" => "bbi",
         "ext_dec_setup" => "bi",
         "ext_srv_reg_start" => "bbbi",
@@ -270,6 +270,11 @@ impl RngCore for Tape {
         self.pos += dest.len();
     }
     fn try_fill_bytes(&mut self, dest: &mut [u8]) -> Result<(), RandError> {
+        // "<op>!" requests: the fallible entry point reports an error (and fills nothing), as an OS generator that
+        // is not ready would; the infallible entry points keep reading the tape
+        if TRY_FAILS.with(|f| f.get()) {
+            return Err(core::num::NonZeroU32::new(RandError::CUSTOM_START).unwrap().into());
+        }
         self.fill_bytes(dest);
         Ok(())
     }
@@ -281,6 +286,7 @@ impl CryptoRng for Tape {}
 // ---------------------------------------------------------------------------------------------
 
 thread_local! {
+    static TRY_FAILS: core::cell::Cell<bool> = const { core::cell::Cell::new(false) };
     static KSFLOG: RefCell<Vec<(Vec<u8>, Option<Vec<u8>>)>> = const { RefCell::new(Vec::new()) };
     static KEYCTL: RefCell<KeyCtl> = const { RefCell::new(KeyCtl { count: 0, failat: 0, trace: String::new() }) };
     static PANIC_MSG: RefCell<String> = const { RefCell::new(String::new()) };
@@ -666,6 +672,56 @@ macro_rules! suite {
                 Ok(outs)
             }
 
+            /// a = (ignored) fmt tape pw cred ctx? idu? ids? ksf: the in-memory registration + login, no reloads;
+            /// outs = every object AS IT LIVES IN MEMORY encoded through `fmt` (setup, reg request, client
+            /// registration state, reg response, upload, password file, KE1, client login state, KE2, server login
+            /// state, KE3), then export key (registration), session key (client), session key (server), export key (login).
+            /// What an encoder sees of a freshly made object can differ from what it sees after a native round trip.
+            fn flow_blobs(a: &[&str]) -> Outs {
+                let f = fmt(a[1], true)?;
+                let mut rng = tape(a[2])?;
+                let (pw, cred) = (bytes(a[3])?, bytes(a[4])?);
+                let (ctx, idu, idsv) = (obytes(a[5])?, obytes(a[6])?, obytes(a[7])?);
+                let k = ksf(a[8])?;
+                let idn = ids(&idu, &idsv);
+                let e = |r: Result<Vec<u8>, String>| r.map(|b| hx(&b)).map_err(Fail::Err);
+                let setup = ServerSetup::<CS>::new(&mut rng);
+                let r1 = st(1, ClientRegistration::<CS>::start(&mut rng, &pw))?;
+                let resp = st(2, ServerRegistration::<CS>::start(&setup, r1.message.clone(), &cred))?.message;
+                let creg_blob = e(enc(&r1.state, f))?;
+                let rparams = ClientRegistrationFinishParameters::<CS>::new(idn, k.as_ref());
+                let r3 = st(3, r1.state.finish(&mut rng, &pw, resp.clone(), rparams))?;
+                let upload_blob = e(enc(&r3.message, f))?;
+                let file = ServerRegistration::<CS>::finish(r3.message);
+                let file_blob = e(enc(&file, f))?;
+                let r5 = st(5, ClientLogin::<CS>::start(&mut rng, &pw))?;
+                let sparams = ServerLoginStartParameters { context: ctx.as_deref(), identifiers: idn };
+                let r6 = st(6, ServerLogin::<CS>::start(&mut rng, &setup, Some(file), r5.message.clone(), &cred, sparams))?;
+                let clog_blob = e(enc(&r5.state, f))?;
+                let slog_blob = e(enc(&r6.state, f))?;
+                let cparams = ClientLoginFinishParameters::<CS>::new(ctx.as_deref(), idn, k.as_ref());
+                let r7 = st(7, r5.state.finish(&pw, r6.message.clone(), cparams))?;
+                let ke3_blob = e(enc(&r7.message, f))?;
+                let r8 = st(8, r6.state.finish(r7.message))?;
+                Ok(vec![
+                    e(enc(&setup, f))?,
+                    e(enc(&r1.message, f))?,
+                    creg_blob,
+                    e(enc(&resp, f))?,
+                    upload_blob,
+                    file_blob,
+                    e(enc(&r5.message, f))?,
+                    clog_blob,
+                    e(enc(&r6.message, f))?,
+                    slog_blob,
+                    ke3_blob,
+                    hx(&r3.export_key),
+                    hx(&r7.session_key),
+                    hx(&r8.session_key),
+                    hx(&r7.export_key),
+                ])
+            }
+
             pub fn handle(op: &str, a: &[&str]) -> Outs {
                 Ok(match op {
                     "setup_new" => {
@@ -832,6 +888,7 @@ macro_rules! suite {
                     .collect(),
                     "flow" => return flow(a, true),
                     "flow_nofile" => return flow(a, false),
+                    "flow_blobs" => return flow_blobs(a),
                     "ext_setup" => {
                         let mut rng = tape(a[0])?;
                         let sk = bytes(a[1])?;
@@ -908,6 +965,11 @@ fn flat(s: &str) -> String {
 }
 
 fn dispatch(suite: &str, op: &str, a: &[&str]) -> Outs {
+    let (op, try_fails) = match op.strip_suffix('!') {
+        Some(o) => (o, true),
+        None => (op, false),
+    };
+    TRY_FAILS.with(|f| f.set(try_fails));
     let Some(sig) = signature(op) else { return bad(format!("unknown op {op}")) };
     validate(sig, a)?;
     route(suite, op, a)
